@@ -1,6 +1,6 @@
 (* C18 - One vocabulary per dimensionality per model.  Statements only. *)
 From Coq Require Import List Bool Arith.
-From NSpa Require Import Model.NetworkCtx Theory.NetworkCtxLaws.
+From NSpa Require Import Model.NetworkCtx Theory.NetworkCtxLaws Theory.NetworkCtxExplicit.
 Import ListNotations.
 
 (* for nesting trees of any depth and shape *)
@@ -39,6 +39,26 @@ Theorem C18_rejected_dimensionality_arguments :
 Proof. exact coerce_dim_rejects. Qed.
 Print Assumptions C18_rejected_dimensionality_arguments.
 
+(* "or the one explicitly supplied for its subtree": every module below `spa.Network(vocabs=my_map)`,
+   at any depth and through plain or SPA sub-networks that bring no map of their own, uses my_map -
+   a map no module built earlier can have used *)
+Theorem C18_explicitly_supplied_map_governs_its_whole_subtree :
+  forall seed ch cfg in_ctx over s occs s',
+    no_explicit_forest ch = true ->
+    build (Spa true seed ch) cfg in_ctx over s = (occs, s') ->
+    next_map s' = S (next_map s) /\
+    forall o, In o occs -> o_map o = next_map s /\ o_over o = true.
+Proof. exact supplied_map_governs_its_subtree. Qed.
+Print Assumptions C18_explicitly_supplied_map_governs_its_whole_subtree.
+
+(* below a supplied or inherited map nothing is created: no module or container of the subtree makes a map of its own *)
+Theorem C18_modules_below_an_inherited_map_create_no_map :
+  forall f m in_ctx over s occs s',
+    no_explicit_forest f = true ->
+    build_forest f (Some m) in_ctx over s = (occs, s') -> s' = s /\ forall o, In o occs -> o_map o = m.
+Proof. exact inherited_map_creates_nothing. Qed.
+Print Assumptions C18_modules_below_an_inherited_map_create_no_map.
+
 (* Not a theorem: "a different seed yields different pointers" (a statement
    about NumPy's generator; tested by the tie).  Reproducibility from the seed
    is determinism of [build_model] (a Coq function) together with the seed
@@ -48,4 +68,11 @@ Example C18_example :
      (Plain (FCons (Module 16) (FCons (Spa false (Some 1) (FCons (Module 16) (FCons (Spa true None (FCons (Module 16) FNil)) FNil)))
              (FCons (Module 32) FNil)))) 0))
   = [0; 0; 1; 0].
+Proof. reflexivity. Qed.
+
+Example C18_explicit_subtree_example :
+  map (fun o => (o_over o, o_map o)) (fst (build_model
+     (Plain (FCons (Module 16) (FCons (Spa true (Some 1) (FCons (Module 16) (FCons (Plain (FCons (Spa false None (FCons (Module 32) FNil)) FNil)) FNil)))
+             (FCons (Module 16) FNil)))) 0))
+  = [(false, 0); (true, 1); (true, 1); (false, 0)].
 Proof. reflexivity. Qed.
